@@ -150,6 +150,12 @@ NEEDS = {
     "C16k": "rpyc.lib.compat.PollingPoll: the event mask accumulates over the whole poll() batch - a descriptor listed after a reset connection inherits its error/hang-up flags, ThreadPoolServer drops that (healthy) client",
     "C18k": "a request with correct magic and a known command whose args slot has no length (5, None): len(args) in a new debug line outside any try ends the serving loop",
     "C20k": "download with a filter rejecting two entries adjacent in listing order: names pruned with remove() while iterating - the entry after each rejected one is never shown to the filter",
+    "C01l": "a callee or callback raising a BaseException that is not an Exception (SystemExit, GeneratorExit): bare except in _dispatch_request narrowed to `except Exception` (C08c's family, met through call trees)",
+    "C02l": "public-attribute mode, a target that has both X and exposed_X: the exposed twin always wins, reads / writes / calls of X are redirected to exposed_X",
+    "C04l": "a complex value with a -0.0 component or an inf/NaN imaginary part: decoder rebuilds it as real + imag*1j instead of complex(real, imag)",
+    "C05l": "SocketStream.read: an orderly EOF strictly inside a frame returns the short data instead of raising EOFError - a shortened packet is delivered",
+    "C06l": "allow_setattr and allow_delattr differing: the delete handler checks the WRITE switch",
+    "C19l": "a packet > 3000 bytes that zlib cannot shrink: raw payload kept but the 'compressed' flag stays set",
     "C18b": "register, advance the clock, re-register, advance: setdefault never refreshes the time stamp, live server pruned / wrong order",
 }
 
